@@ -122,6 +122,10 @@ def _sep_wire(sep):
         return neg + 'S:' + wire(v)
     if t == 'E':
         return neg + 'E:'
+    if t == 'B':
+        return neg + 'B:' + wire(v)
+    if t == 'H':
+        return neg + 'H:' + wire(v)
     return neg + 'A:' + '|'.join(wire(x) for x in v)
 
 def _may_match_empty(sep):
@@ -137,6 +141,12 @@ def _sep_rx(sep):
         return re.compile('[' + ''.join(re.escape(ch) for ch in v) + ']*')
     if t == 'E':
         return re.compile(r'\Z')
+    if t == 'B':
+        # a separator that looks at what precedes it: `v` not preceded by `v` (in the chars node, not in the part searched)
+        return re.compile('(?<!' + re.escape(v) + ')' + re.escape(v))
+    if t == 'H':
+        # v[1] anywhere, v[0] only at the very beginning of the chars node
+        return re.compile(re.escape(v[1]) + '|^' + re.escape(v[0]))
     return re.compile('(?:' + '|'.join(re.escape(x) for x in v) + ')')
 
 def _sep_obj(sep, budget=None):
@@ -348,6 +358,25 @@ def _impl_chars(c):
         return {'out': 'ValueError-empty-match', 'fail': fail, 'sig': sigbase + ':valueerror'}
     out = _dump_parts(s, parts)
     fail = None
+    if c['sep']['t'] in ('B', 'H'):
+        # separators whose match depends on what precedes them in the chars node: the context-free checks below do not
+        # apply; the reference is the list of non-overlapping matches of the expression in each top-level chars node
+        # (re.finditer sees the whole node), cut at max_split; the separators consumed are the gaps between the parts
+        rx = _sep_rx(c['sep'])
+        ref = []
+        for n in nl.nodelist:
+            if n is not None and isinstance(n, N.LatexCharsNode):
+                ref += [(n.pos + m.start(), n.pos + m.end()) for m in rx.finditer(n.chars)]
+        if c['ms'] is not None:
+            ref = ref[:c['ms']]
+        if pk != 'VE' and all(p.pos is not None and p.pos_end is not None for p in pk):
+            gaps = [(pk[i].pos_end, pk[i + 1].pos) for i in range(len(pk) - 1)]
+            if gaps != ref:
+                fail = {'kind': 'partition', 'detail': 'separator %r on %r: split at %r, the expression matches (in the chars nodes, max_split=%r) at %r'
+                                                     % (rx.pattern, s, gaps, c['ms'], ref)}
+            elif not c['ke'] and [_dump_part(s, p) for p in pk if len(p.nodelist) > 0] != [_dump_part(s, p) for p in parts]:
+                fail = {'kind': 'keep-empty-not-filter', 'detail': 'keep_empty=False is not the keep_empty=True result without its empty parts'}
+        return {'out': out, 'fail': fail, 'sig': sigbase + ':parts%d' % min(len(parts), 4)}
     r = _check_partition(s, nl, parts, c['sep'], c['ke'], c['sn'])
     if r:
         fail = {'kind': r[0], 'detail': r[1]}
@@ -763,6 +792,10 @@ SEPS = [
     {'t': 'E', 'v': '', 'iface': 'rx'},
     {'t': 'E', 'v': '', 'iface': 'fnm'},
     {'t': 'L', 'v': '', 'iface': 'rx'},
+    {'t': 'B', 'v': ',', 'iface': 'rx'},
+    {'t': 'B', 'v': ',', 'iface': 'fnm'},
+    {'t': 'H', 'v': ',;', 'iface': 'rx'},
+    {'t': 'H', 'v': ',;', 'iface': 'fn'},
 ]
 SEPS_EDGE = [s for s in SEPS if s.get('nomatch') == 'neg' or s['t'] in ('S', 'E') or s['v'] == '']
 MS = [None, 0, 1, 2, 3]
@@ -791,6 +824,12 @@ def cases(tier, rng):
         for sep in SEPS_EDGE:
             for ke in (False, True):
                 for ms in (None, 0, 1, 2):
+                    yield {'k': 'chars', 'atoms': atoms, 'sep': sep, 'ms': ms, 'ke': ke, 'sn': True, 'nones': []}
+    # 1c. bounded-exhaustive: separators whose match depends on what PRECEDES it in the chars node (look-behind, ^)
+    for atoms in _strings([',', ',,', 'a', ';', '{b,c}', ';,'], 3 if quick else 4):
+        for sep in [s for s in SEPS if s['t'] in ('B', 'H')]:
+            for ke in (False, True):
+                for ms in (None, 1):
                     yield {'k': 'chars', 'atoms': atoms, 'sep': sep, 'ms': ms, 'ke': ke, 'sn': True, 'nones': []}
     # 2. random: larger alphabet, all separator kinds, None entries, skip_none
     n = 4000 if quick else 60000
